@@ -76,11 +76,17 @@ def norm_op(o):
 
 # ---- real side ------------------------------------------------------------------------------------------
 class Real(object):
-    def __init__(self):
+    def __init__(self, owner='cmd'):
         from TexSoup import TexSoup
         from TexSoup.data import BraceGroup, BracketGroup
-        self.soup = TexSoup('\\c')
-        self.owner = self.soup.c
+        if owner == 'cmd':
+            self.soup = TexSoup('\\c')
+            self.owner = self.soup.c
+            self.pre, self.post = ['\\', 'c'], []
+        else:       # the argument list of an ENVIRONMENT: printed between \begin{c} and the body
+            self.soup = TexSoup('\\begin{c}\\end{c}')
+            self.owner = self.soup.c
+            self.pre, self.post = to_atoms('\\begin{c}'), to_atoms('\\end{c}')
         self.args = self.owner.args
         self.pool = {1: BraceGroup('a'), 2: BracketGroup('b'), 3: BraceGroup('a')}
         self.ident = {id(v): k for k, v in self.pool.items()}
@@ -138,7 +144,16 @@ def ids_match(model, real):
 
 
 def _replay(rec):
-    R = Real()
+    for owner in ('cmd', 'env'):
+        b = _replay_on(rec, owner)
+        if b:
+            b['owner'] = owner
+            return b
+    return None
+
+
+def _replay_on(rec, owner):
+    R = Real(owner)
     for n, ev in enumerate(rec['h']):
         o = norm_op(ev['op'])
         r, st = R.do(o)
@@ -152,7 +167,7 @@ def _replay(rec):
             why = 'identity'
         elif st['str'] != concat:
             why = 'str'
-        elif st['owner'] != ['\\', 'c'] + concat:
+        elif st['owner'] != R.pre + concat + R.post:
             why = 'owner'
         if why:
             return {'step': n, 'why': why, 'op': o, 'got': r, 'want': ev['r'], 'got_list': [from_atoms(t) for t in st['texts']],
@@ -164,7 +179,7 @@ def record_walks(rng, count, length, maxlen=6):
     ops = all_ops()
     traces = []
     for _ in range(count):
-        R = Real()
+        R = Real('cmd')
         h = []
         for _ in range(length):
             o = rng.choice(ops)
